@@ -2,104 +2,16 @@
 //! Oracle: explicit-state evaluator, point-wise on every state x sampled valid colour, through every
 //! plain entry point (string / tree, single / one-element batch, raw / sanitised).
 
+use super::common::*;
 use crate::ast::F;
 use crate::engine::*;
 use crate::gen::FCfg;
 use crate::model::Net;
 use crate::sem::*;
-use biodivine_hctl_model_checker::model_checking::*;
-use biodivine_hctl_model_checker::preprocessing::parser::parse_and_minimize_hctl_formula;
 use proptest::strategy::BoxedStrategy;
 use serde_json::Value;
 
 pub struct C01;
-
-pub fn panic_fail(prefix: &str, what: &str, p: &str, case: &SemCase) -> Failure {
-    fail(
-        &format!("{prefix}:panic:{}", panic_site(p)),
-        format!("{what} panicked: {p}"),
-        case,
-    )
-}
-
-/// Run all plain entry points on one closed plain formula and compare each with `want`.
-pub fn check_plain_entry_points(
-    prefix: &str,
-    net: &Net,
-    case: &SemCase,
-    text: &str,
-    colours: &[u64],
-    want: &[u64],
-) -> Result<(), Failure> {
-    let g = &net.graph;
-    macro_rules! call {
-        ($name:expr, $e:expr) => {
-            match guard(|| $e) {
-                Err(p) => return Err(panic_fail(prefix, $name, &p, case)),
-                Ok(Err(e)) => {
-                    return Err(fail(
-                        &format!("{prefix}:unexpected-error:{}", $name),
-                        format!("{} returned Err({e}) on a valid closed formula", $name),
-                        case,
-                    ))
-                }
-                Ok(Ok(v)) => v,
-            }
-        };
-    }
-    macro_rules! cmp {
-        ($name:expr, raw, $set:expr) => {
-            if let Err(m) = compare_raw(net, $set, colours, want) {
-                return Err(fail(&format!("{prefix}:mismatch:{}", $name), format!("{}: {m}", $name), case));
-            }
-        };
-        ($name:expr, san, $set:expr) => {
-            if let Err(m) = compare_sanitised(net, $set, colours, want) {
-                return Err(fail(&format!("{prefix}:mismatch:{}", $name), format!("{}: {m}", $name), case));
-            }
-        };
-    }
-    let r = call!("model_check_formula_dirty", model_check_formula_dirty(text, g));
-    cmp!("model_check_formula_dirty", raw, &r);
-    let r = call!("model_check_formula", model_check_formula(text, g));
-    cmp!("model_check_formula", san, &r);
-    let tree = call!(
-        "parse_and_minimize_hctl_formula",
-        parse_and_minimize_hctl_formula(g.symbolic_context(), text)
-    );
-    let r = call!("model_check_tree_dirty", model_check_tree_dirty(tree.clone(), g));
-    cmp!("model_check_tree_dirty", raw, &r);
-    let r = call!("model_check_tree", model_check_tree(tree.clone(), g));
-    cmp!("model_check_tree", san, &r);
-    let r = call!(
-        "model_check_multiple_formulae_dirty",
-        model_check_multiple_formulae_dirty(vec![text], g)
-    );
-    if r.len() != 1 {
-        return Err(fail(&format!("{prefix}:batch-length"), format!("one formula in, {} results out", r.len()), case));
-    }
-    cmp!("model_check_multiple_formulae_dirty", raw, &r[0]);
-    let r = call!(
-        "model_check_multiple_formulae",
-        model_check_multiple_formulae(vec![text], g)
-    );
-    cmp!("model_check_multiple_formulae", san, &r[0]);
-    let r = call!(
-        "model_check_multiple_trees_dirty",
-        model_check_multiple_trees_dirty(vec![tree.clone()], g)
-    );
-    cmp!("model_check_multiple_trees_dirty", raw, &r[0]);
-    let r = call!(
-        "model_check_multiple_trees",
-        model_check_multiple_trees(vec![tree], g)
-    );
-    cmp!("model_check_multiple_trees", san, &r[0]);
-    Ok(())
-}
-
-pub fn nontrivial_result(net: &Net, want: &[u64]) -> bool {
-    want.iter().any(|s| *s != 0) && want.iter().any(|s| *s != net.all_states())
-}
 
 fn check(case: &SemCase, net: &Net, f: &F) -> Verdict {
     if f.has_wild_or_domain() || f.has_weak_until() || !f.is_closed() {
@@ -107,7 +19,11 @@ fn check(case: &SemCase, net: &Net, f: &F) -> Verdict {
     }
     let colours = sample_colours(net, 64);
     let want = &expected_many(net, std::slice::from_ref(f), &case.context, &colours)[0];
-    if let Err(fl) = check_plain_entry_points("C01", net, case, &case.formulas[0], &colours, want) {
+    let results = match run_plain("C01", net, case, &case.formulas[0]) {
+        Ok(r) => r,
+        Err(fl) => return Verdict::Fail(fl),
+    };
+    if let Err(fl) = compare_all("C01", net, case, &results, &colours, want) {
         return Verdict::Fail(fl);
     }
     let mut classes = net_classes(net);
@@ -133,11 +49,11 @@ impl Property for C01 {
         vec![
             "aeon parsing, FnUpdate, function-table row numbering and Bdd::eval_in of lib-param-bn / lib-bdd are trusted".into(),
             "colour validity is taken from SymbolicAsyncGraph::unit_colors (input-domain notion)".into(),
-            "bounded: <= 4 variables, <= 12 parameter bits, quantifier nesting <= 3, <= ~20 formula nodes".into(),
+            "bounded: <= 4 variables, <= 12 parameter bits, quantifier nesting <= 3, <= ~24 formula nodes".into(),
         ]
     }
     fn cases(&self, tier: Tier) -> u32 {
-        tier.pick(4000, 80000)
+        tier.pick(40_000, 1_500_000)
     }
     fn strategy(&self, tier: Tier) -> BoxedStrategy<RawSem> {
         raw_sem(tier.pick(3, 4), 1..=1, 5, tier.pick(16, 24))
@@ -149,15 +65,6 @@ impl Property for C01 {
         }
     }
     fn replay(&self, case: &Value) -> Verdict {
-        let case = match SemCase::from_json(case) {
-            Ok(c) => c,
-            Err(_) => return Verdict::Discard("unreadable-case"),
-        };
-        let net = match build_net(&case) {
-            Ok(n) => n,
-            Err(r) => return Verdict::Discard(r),
-        };
-        let f = case.parsed().remove(0);
-        check(&case, &net, &f)
+        replay_with(case, |case, net, fs| check(case, net, &fs[0]))
     }
 }
